@@ -39,7 +39,7 @@ class _Sim:
         self.rng = rng
         self.ifaces = []
         for i in range(ni):
-            k = rng.choice([0, 1, 1, 1, 2, 2]) if i else 0
+            k = rng.choice([0, 0, 1, 1, 1, 2]) if i else 0
             self.ifaces.append(sorted(rng.sample(range(i), min(k, i)), reverse=rng.random() < 0.8))
         self.up = []
         for i, bs in enumerate(self.ifaces):
@@ -194,13 +194,21 @@ class _Sim:
             c = rng.randrange(nc)
             kind = rng.choice(CLASS_OPS + ["ClassImplements", "Implementer"])
             l = self.ilist(prefer=self.implied(c))
-            subs = [x for d in self.asked[c] for x in range(len(self.ifaces)) if x != d and d in self.up[x]]
-            if subs and rng.random() < 0.45:
-                # both halves of classImplements' before/after split are non-empty
-                kind = rng.choice(["ClassImplements", "Implementer"])
-                l = [rng.choice(subs), rng.randrange(len(self.ifaces))] + l[:1]
-                rng.shuffle(l)
-                self.tags.add("before-after-split")
+            if rng.random() < 0.45:
+                # both halves of classImplements' before/after split are non-empty and survive
+                # the elision, preferably on a class that inherits from its bases
+                cands = [x for x in range(nc) if self.inherit[x] and self.cbases[x] and self.asked[x]]
+                c2 = rng.choice(cands) if cands and rng.random() < 0.7 else c
+                imp = self.implied(c2)
+                ni = len(self.ifaces)
+                subs = [x for d in self.asked[c2] for x in range(ni) if x != d and d in self.up[x] and x not in imp]
+                rest = [x for x in range(ni) if x not in imp and not any(d in self.up[x] for d in self.asked[c2])]
+                if subs and rest:
+                    c = c2
+                    kind = rng.choice(["ClassImplements", "Implementer"])
+                    l = [rng.choice(subs), rng.choice(rest)] + l[:1]
+                    rng.shuffle(l)
+                    self.tags.add("before-after-split")
             self.class_op(kind, c, l)
         elif k == "cobj":
             c = rng.randrange(nc)
@@ -318,8 +326,8 @@ WITNESS = {  # the 5-op history of the fixed finding F1 (with creations spelled 
 
 def generate(run, tier):
     rng = run.rng("gen")
-    n = 700 if tier == "quick" else 9000
-    return [WITNESS] + [_gen_case(rng, tier) for _ in range(n)]
+    n = 700 if tier == "quick" else 6000
+    return [_gen_case(rng, tier) for _ in range(n)]
 
 
 # ---------------------------------------------------------------- Coq terms
@@ -434,6 +442,115 @@ def replay_text(case, obs, mode):
 
 def finding_key(case, obs, mode):
     return None
+
+
+# ---------------------------------------------------------------- shrinking of a violating history
+
+def _remove(ops, k):
+    """history without step k; removing a creation removes everything that refers to the
+    created class / instance and renumbers the rest"""
+    o = ops[k]
+    rest = [dict(x) for j, x in enumerate(ops) if j != k]
+    if o["op"] == "NewInstance":
+        n = sum(1 for x in ops[:k] if x["op"] == "NewInstance")
+        out = []
+        for x in rest:
+            if x["op"] == "DropInstance":
+                if x["o"] == n:
+                    continue
+                if x["o"] > n:
+                    x["o"] -= 1
+            elif "t" in x and x["t"][0] == "i":
+                if x["t"][1] == n:
+                    continue
+                if x["t"][1] > n:
+                    x["t"] = ["i", x["t"][1] - 1]
+            out.append(x)
+        return out
+    if o["op"] == "NewClass":
+        n = sum(1 for x in ops[:k] if x["op"] == "NewClass")
+        if any(x["op"] == "NewInstance" and x["c"] == n for x in rest):
+            return None
+        out = []
+        for x in rest:
+            if x["op"] == "NewClass":
+                x["bases"] = [b - 1 if b > n else b for b in x["bases"] if b != n]
+            elif x["op"] == "NewInstance":
+                if x["c"] > n:
+                    x["c"] -= 1
+            elif "c" in x:
+                if x["c"] == n:
+                    continue
+                if x["c"] > n:
+                    x["c"] -= 1
+            elif "t" in x and x["t"][0] == "c":
+                if x["t"][1] == n:
+                    continue
+                if x["t"][1] > n:
+                    x["t"] = ["c", x["t"][1] - 1]
+            out.append(x)
+        return out
+    return rest
+
+
+def _violates(impl, cands, mode):
+    """indices of candidate cases on which the implementation still contradicts the Spec
+    (without any unexpected exception)"""
+    st, res = impl.run(DRIVER, {"cases": cands}, mode, timeout=300)
+    if st != "ok":
+        return [], None
+    obs = res["obs"]
+    terms = [coq_case(c, o, mode) for c, o in zip(cands, obs)]
+    _bm, bad_spec, errors = C.coq_eval_cases(TIE, terms, shard=max(1, len(terms)))
+    if errors:
+        return [], None
+    good = [j for j in bad_spec
+            if len(obs[j].get("steps", [])) == len(cands[j]["ops"]) and all(s["exc"] != 2 for s in obs[j]["steps"])]
+    return good, obs
+
+
+def shrink(impl, case, mode, rounds=14):
+    cur = case
+    cur_obs = None
+    for _ in range(rounds):
+        cands = []
+        for k in range(len(cur["ops"])):
+            ops = _remove(cur["ops"], k)
+            if ops:
+                ops[-1]["q"] = True
+                cands.append({"ifaces": cur["ifaces"], "ops": ops, "tags": ["shrunk"]})
+        if not cands:
+            break
+        good, obs = _violates(impl, cands, mode)
+        if not good:
+            break
+        # prefer the shortest candidate (removing a creation removes several steps)
+        j = min(good, key=lambda j: len(cands[j]["ops"]))
+        cur, cur_obs = cands[j], obs[j]
+    return cur, cur_obs
+
+
+def extra(run, impl, known):
+    """Minimise the first concrete violation (delta debugging on the history) and store the
+    result in its replay file."""
+    for v in run.violations:
+        if v.get("no_input"):
+            continue
+        try:
+            with open(v["replay"]) as fh:
+                rp = json.load(fh)
+            if "case" not in rp or "mode" not in rp:
+                continue
+            small, obs = shrink(impl, rp["case"], rp["mode"])
+            if obs is not None:
+                rp["minimised_case"] = small
+                rp["minimised_python"] = replay_text(small, obs, rp["mode"])
+                with open(v["replay"], "w") as fh:
+                    json.dump(rp, fh, indent=1, sort_keys=True, default=str)
+                run.coverage["minimised_violation_steps"] = len(small["ops"])
+        except Exception as e:   # shrinking is a convenience, never a verdict
+            run.coverage["shrink_error"] = repr(e)[:300]
+        break
 
 
 TECHNIQUE = ("Coq proof by induction over histories of a Gallina model of declarations.py (class specifications, "
